@@ -4,6 +4,7 @@ import (
 	"fmt"
 	"go/token"
 	"go/types"
+	"os"
 	"strings"
 
 	"golang.org/x/tools/go/ssa"
@@ -1310,4 +1311,171 @@ func (c *Ctx) rulePubKeySlice() {
 		})
 	}
 	c.ob("R-BOUNDS/pubkey", "PublicKey-slices-examined", token.NoPos, true, fmt.Sprintf("%d constant-bound slices of PublicKey examined", n))
+}
+
+// R-PLAN/count (C31): the number of heights the planner covers is target - start + 1, for start 0 too.
+func (c *Ctx) rulePlanCount() {
+	c.doc("R-PLAN/count", msgDir+" NewAscendingBlockRequests: the block count the requests are cut from (the value tested against 1 for the single-block case), evaluated for start 0..6 and target start..start+6 through its φ-nodes, equals target - start + 1: a plan from height 0 must not lose its last height")
+	f := c.fn(msgDir, "NewAscendingBlockRequests")
+	if f == nil {
+		c.unresolved(msgDir + ".NewAscendingBlockRequests")
+		return
+	}
+	start, target := ssa.Value(f.Params[0]), ssa.Value(f.Params[1])
+	var diff ssa.Value
+	eachInstr(f, func(_ *ssa.BasicBlock, _ int, in ssa.Instruction) {
+		bo, ok := in.(*ssa.BinOp)
+		if !ok || bo.Op != token.EQL {
+			return
+		}
+		if k, isC := constInt(bo.Y); !isC || k != 1 {
+			return
+		}
+		sl := backwardSlice(bo.X, nil)
+		if sl[start] && sl[target] {
+			diff = bo.X
+		}
+	})
+	if diff == nil {
+		c.unresolved("the block count of NewAscendingBlockRequests (value compared with 1)")
+		return
+	}
+	bad := ""
+	n := 0
+	for s := int64(0); s <= 6 && bad == ""; s++ {
+		for t := s; t <= s+6; t++ {
+			n++
+			got, ok := evalInt(diff, map[ssa.Value]int64{start: s, target: t}, 0)
+			if !ok {
+				bad = fmt.Sprintf("count not evaluable for start=%d target=%d", s, t)
+				break
+			}
+			if got != t-s+1 {
+				bad = fmt.Sprintf("start=%d target=%d: count %d, want %d", s, t, got, t-s+1)
+				break
+			}
+		}
+	}
+	c.ob("R-PLAN/count", "NewAscendingBlockRequests:count=target-start+1", f.Pos(), bad == "", fmt.Sprintf("%d valuations; %s", n, bad))
+}
+
+// R-FINALISE/eachblock (C36, C17): every block of the finalised sub-chain is written.
+func (c *Ctx) ruleFinaliseEachBlock() {
+	c.doc("R-FINALISE/eachblock", stateDir+" handleFinalisedBlock: in the loop over the finalised sub-chain the only iteration that returns to the loop head without having written the block's header AND body is the genesis block's (the comparison with genesisHash): `already stored` shortcuts keyed on a partial write (the header is the first of the block's non-atomic writes) leave a finalised block without body after a crash and a re-finalisation")
+	f := c.fn(stateDir, "(*BlockState).handleFinalisedBlock")
+	if f == nil {
+		c.unresolved("(*BlockState).handleFinalisedBlock")
+		return
+	}
+	var setHeader, setBody *ssa.Call
+	eachInstr(f, func(_ *ssa.BasicBlock, _ int, in ssa.Instruction) {
+		if call, ok := in.(*ssa.Call); ok && call.Call.StaticCallee() != nil {
+			switch call.Call.StaticCallee().Name() {
+			case "SetHeader":
+				setHeader = call
+			case "SetBlockBody":
+				setBody = call
+			}
+		}
+	})
+	if setHeader == nil || setBody == nil {
+		c.unresolved("SetHeader / SetBlockBody calls in handleFinalisedBlock")
+		return
+	}
+	header, loop := innermostLoop(f, setBody.Block())
+	if loop == nil {
+		c.ob("R-FINALISE/eachblock", "handleFinalisedBlock:writes-in-loop", setBody.Pos(), false, "the block writes are not in a loop over the sub-chain")
+		return
+	}
+	isGenesisGuard := func(cond ssa.Value, truth bool) bool {
+		bo, ok := cond.(*ssa.BinOp)
+		if !ok || bo.Op != token.EQL || !truth {
+			return false
+		}
+		for _, side := range []ssa.Value{bo.X, bo.Y} {
+			if _, fv, ok := fieldLoad(side); ok && fv != nil && fv.Name() == "genesisHash" {
+				return true
+			}
+		}
+		return false
+	}
+	bad := ""
+	n := 0
+	for b := range loop {
+		if header == nil {
+			break
+		}
+		back := false
+		for _, s := range b.Succs {
+			if s == header {
+				back = true
+			}
+		}
+		if !back || b == header {
+			continue
+		}
+		n++
+		if os.Getenv("VERIF_DEBUG") != "" {
+			fmt.Printf("  debug eachblock: back block %d header %d domBody=%v domHeader=%v\n", b.Index, header.Index, setBody.Block().Dominates(b), setHeader.Block().Dominates(b))
+		}
+		if setBody.Block().Dominates(b) && setHeader.Block().Dominates(b) {
+			continue
+		}
+		if guardedBy(b, isGenesisGuard) {
+			continue
+		}
+		if iff := ifOf(b); iff != nil && len(b.Succs) == 2 && isGenesisGuard(iff.Cond, b.Succs[0] == header) {
+			continue // the back edge itself is the genesis test
+		}
+		bad = "block " + fmt.Sprint(b.Index)
+		for _, in := range b.Instrs {
+			if p := c.pos(in.Pos()); p != "-" && p != "" {
+				bad = p
+				break
+			}
+		}
+	}
+	c.ob("R-FINALISE/eachblock", "handleFinalisedBlock:no-iteration-skips-the-writes", setBody.Pos(), header != nil && n > 0 && bad == "", "an iteration can continue with the next block without writing header and body (near "+bad+")")
+}
+
+// innermostLoop returns the header and the whole body (the union of the natural loops of all back edges to that
+// header) of the innermost loop containing blk.
+func innermostLoop(f *ssa.Function, blk *ssa.BasicBlock) (*ssa.BasicBlock, map[*ssa.BasicBlock]bool) {
+	type lp struct {
+		header *ssa.BasicBlock
+		body   map[*ssa.BasicBlock]bool
+	}
+	byHeader := map[*ssa.BasicBlock]map[*ssa.BasicBlock]bool{}
+	for _, d := range f.Blocks {
+		for _, p := range d.Preds {
+			if !d.Dominates(p) {
+				continue
+			}
+			body := byHeader[d]
+			if body == nil {
+				body = map[*ssa.BasicBlock]bool{d: true}
+				byHeader[d] = body
+			}
+			stack := []*ssa.BasicBlock{p}
+			for len(stack) > 0 {
+				x := stack[len(stack)-1]
+				stack = stack[:len(stack)-1]
+				if body[x] {
+					continue
+				}
+				body[x] = true
+				stack = append(stack, x.Preds...)
+			}
+		}
+	}
+	var best *lp
+	for h, body := range byHeader {
+		if body[blk] && (best == nil || len(body) < len(best.body)) {
+			best = &lp{h, body}
+		}
+	}
+	if best == nil {
+		return nil, nil
+	}
+	return best.header, best.body
 }
